@@ -47,6 +47,25 @@ CLAIMED = {
         note="PARTIAL: the model's language has integers, assignment, branches, bounded loops and opaque outside calls; closures proper, eval, with, "
              "generators and the temporal dead zone are decided by the configuration differential only.",
     ),
+    "C20": dict(
+        level="proof",
+        text="Three models. (1) [[OwnPropertyKeys]] over a storage whose iteration order is arbitrary: theorems sortNat_storage_independent "
+             "and ownKeys_storage_independent — for EVERY sequence of property definitions and deletions and ANY two admissible storages (two "
+             "hash seeds, two allocation histories, dense or sparse) the reported key order is the same, i.e. a function of the history "
+             "alone; the engine's Reflect.ownKeys (and eight derived enumerations) must equal the model's specification order on generated "
+             "histories that cross every index-storage variant. (2) A world of realm states: runIn_other, runIn_trace_local, history_other, "
+             "isolation (whatever scripts ran in other realms, a script prints what it prints in an untouched world) — tied by running "
+             "multi-realm / multi-context slot scripts on the engine and on the model. (3) The inventory of `static` / `thread_local!` items "
+             "of core/*/src, REGENERATED from the source on every run, with theorem statics_all_classified (no shared item without a "
+             "recorded reason why it is not script-visible mutable state). The property itself is decided by the differential: the same "
+             "program after hostile histories (every reachable intrinsic deleted / overwritten / turned into throwing accessors, shape and "
+             "symbol churn, pending jobs) in other contexts and in sibling realms, in another process with a padded heap and reversed "
+             "evaluation order, must print byte-identical traces; objects handed across realms keep their own realm's intrinsics.",
+        technique="Lean 4 proofs (key order independent of storage order; realm frame/isolation theorems; regenerated shared-state inventory with a classification theorem) + model-vs-engine correspondence on key histories and realm-slot scripts + repeated-run differentials under hostile histories, padded heaps and separate processes",
+        note="PARTIAL: the reasons in the statics classification are human judgement (the theorem checks completeness only); address and hash-seed "
+             "variation is what the OS / allocator / std give across processes and --pad, not an exhaustive exploration; specKeys == ownKeys is "
+             "compared by the driver on every history but not proved.",
+    ),
     "C17": dict(
         level="proof",
         text="Lean model of Evaluate / InnerModuleEvaluation for modules without top-level await, as in ECMA-262 16.2.1.5.3: DFS and ancestor "
